@@ -1,5 +1,6 @@
 import Adlt.Convert.Proofs
 import Adlt.Convert.Order
+import Adlt.Convert.FileOrder
 /-! # C14 — convert selects exactly what its options say
 
 Model: `Cvt.convert` = input ordering (`Cvt.inputSeq`) followed by the pipeline lifecycle detection (`Lcm.run`) ->
@@ -50,19 +51,29 @@ theorem C14_each_once (re : Re) (o : Opts) (files : List File) (sorter : List PM
   rw [(C14_input_numbered files).2] at hsub
   exact hsub.nodup List.nodup_range
 
-/-! ## the order of the file arguments (partial: the two sorting steps; the grouping by ECU set is not covered) -/
+/-! ## the order of the file arguments -/
 
 /-- within one ECU set the files are read in the order of their first reception times, however they were named, when
     those times differ -/
-theorem C14_files_of_a_group_order_free_partial (l l' : List File) (hp : l.Perm l')
+theorem C14_files_of_a_group_order_free (l l' : List File) (hp : l.Perm l')
     (hd : ∀ a ∈ l, ∀ b ∈ l, a.firstRecv = b.firstRecv → a = b) : sortByTime l = sortByTime l' :=
   sortByTime_perm_invariant l l' hp hd
 
 /-- the streams of the ECU sets are merged with the same ranks (hence the same result, `merge` being a function of the ranked
     list) however they were passed, when their first reception times differ -/
-theorem C14_streams_order_free_partial (ss ss' : List (List FMsg)) (hp : ss.Perm ss')
+theorem C14_streams_order_free (ss ss' : List (List FMsg)) (hp : ss.Perm ss')
     (hd : ∀ a ∈ ss, ∀ b ∈ ss, headRecv a = headRecv b → a = b) : merge (rankStreams ss) = merge (rankStreams ss') := by
   rw [rankStreams_perm_invariant ss ss' hp hd]
+
+/-- **file order**: naming the input files in a different order gives the same result - the same messages with the same
+    indices and lifecycles, for every option set, sorter and filter matcher - when the first reception times of the (non-empty)
+    files are distinct; later messages of different files may well carry equal reception times -/
+theorem C14_file_order (sorter : List PMsg → List PMsg) (mt : Flt.Filter → Flt.MsgView → Bool) (o : Opts) (files files' : List File)
+    (hp : files.Perm files')
+    (hdist : ∀ a ∈ files, ∀ b ∈ files, a.msgs ≠ [] → b.msgs ≠ [] → a.firstRecv = b.firstRecv → a = b) :
+    convert sorter mt o files' = convert sorter mt o files := by
+  unfold convert
+  rw [inputSeq_perm files files' hp hdist]
 
 /-- non-vacuity: a two-message input, window [1,1] -/
 example : (convert id (fun _ _ => true) { first := 1, last := some 1 }
